@@ -65,6 +65,23 @@ fn c04_space() -> Vec<C04Spec> {
     v
 }
 
+fn c04_limit_space() -> Vec<(usize, usize, bool, usize, u64)> {
+    let mut v = vec![];
+    for si in 0..4 {
+        let n0 = if si == 3 { 2 } else { first_pass_len(C04_SIZES[si], 32) };
+        for nak in [0usize, 2, 4] {
+            for lf_all in [false, true] {
+                for i in 0..n0 {
+                    for delay in [1u64, 300, 700, 950, 1600, 3100] {
+                        v.push((si, nak, lf_all, i, delay));
+                    }
+                }
+            }
+        }
+    }
+    v
+}
+
 fn c04_build(case: &str, seed: u64, spec: &C04Spec, idx: usize) -> Case {
     let (si, nak, w, la, lf, red) = spec.clone();
     let mut k = Knobs::base();
@@ -109,6 +126,23 @@ pub fn c04_case(fam: &str, idx: usize, seed: u64) -> Option<Case> {
         "sys" => {
             let sp = c04_space();
             Some(c04_build(&case, seed, sp.get(idx)?, idx))
+        }
+        "limit" => {
+            // ACK(Finished) never arrives (optionally no Finished PDU reaches the sender either): the receiver
+            // stays open through its positive-ACK limit, the limit fault and the cancelled state that follows;
+            // every first-pass PDU is delivered again at several points after that fault
+            let sp = c04_limit_space();
+            let (si, nak, lf_all, i, delay) = *sp.get(idx)?;
+            let spec: C04Spec = (si, nak, 0, false, false, vec![]);
+            let mut cs = c04_build(&case, seed, &spec, idx);
+            cs.sc.rules.push(Rule { from: 0, to: 1, m: Matcher::KindAll(Kind::AckFin), a: Action::Drop });
+            if lf_all {
+                cs.sc.rules.push(Rule { from: 1, to: 0, m: Matcher::KindAll(Kind::Finished), a: Action::Drop });
+            }
+            cs.sc.scripts.push(Script { trig: Trigger::AfterInd(1, IndKind::Fault, 0), delay_ms: delay, act: Act::Redeliver(0, i) });
+            cs.info.desc.push_str(&format!(" :: limit family: every ACK(Fin) lost, every FIN lost={}, re-deliver e0#{} {} ms after the receiver's fault indication", lf_all, i, delay));
+            cs.sync();
+            Some(cs)
         }
         "rand" => {
             let mut rng = Rng::derive(seed, 402, idx as u64);
@@ -262,7 +296,7 @@ pub fn run_c04(tier: &str, seed: u64, replay: Option<&str>) -> (Meta, Report) {
     let meta = Meta {
         property: "C04",
         level: "fault_enumeration",
-        rule: "acknowledged mode (and unacknowledged mode with closure, where the receiver stays open until its ACK limit), files of 2-3 segments and filestore-request-only transactions, every transaction carries a non-idempotent append request; ACK(Finished) is withheld once or twice so that the receiver stays open after its success indication; optional loss of the first ACK(EOF) / first Finished. sys = re-delivery, 1 ms and 1.5 s after the receiver's Finished indication, of EVERY PDU of the sender's first pass (singles), of EVERY ordered pair of them, and of each of the receiver's first three PDUs to the sender (complete). rand = 1-3 re-deliveries of any emitted PDU at random delays, prompts from the sending user, an extra dup/delay fault. distinct_nontrivial = distinct (config, size, event-order) signatures among runs where at least one late PDU reached the still-open transaction.".into(),
+        rule: "acknowledged mode (and unacknowledged mode with closure, where the receiver stays open until its ACK limit), files of 2-3 segments and filestore-request-only transactions, every transaction carries a non-idempotent append request; ACK(Finished) is withheld once or twice so that the receiver stays open after its success indication; optional loss of the first ACK(EOF) / first Finished. sys = re-delivery, 1 ms and 1.5 s after the receiver's Finished indication, of EVERY PDU of the sender's first pass (singles), of EVERY ordered pair of them, and of each of the receiver's first three PDUs to the sender (complete). limit = every ACK(Finished) lost (optionally every Finished PDU too): the receiver runs into its positive-ACK limit and the cancelled state behind it, and every first-pass PDU is re-delivered 1 ms .. 3.1 s after that fault (complete). rand = 1-3 re-deliveries of any emitted PDU at random delays, prompts from the sending user, an extra dup/delay fault. distinct_nontrivial = distinct (config, size, event-order) signatures among runs where at least one late PDU reached the still-open transaction.".into(),
         exhaustive: true,
         assumptions: vec!["window = from the receiver's first success indication to the end of its (first) transaction task; PDUs arriving after that start a new transaction and are out of scope, as the property says".into()],
         require: vec![("c04_windows_judged".into(), 500), ("c04_late_pdus_delivered_in_window".into(), 500), ("c04_checked:requests-once".into(), 500)],
@@ -278,6 +312,9 @@ pub fn run_c04(tier: &str, seed: u64, replay: Option<&str>) -> (Meta, Report) {
     let m = (n - off + stride - 1) / stride;
     let mut rep = run_cases(m, "c04-sys", move |i| c04_case("sys", off + i * stride, seed), judge_c04);
     rep.add("cases:sys", m as u64);
+    let nl = c04_limit_space().len();
+    rep.merge(run_cases(nl, "c04-limit", move |i| c04_case("limit", i, seed), judge_c04));
+    rep.add("cases:limit", nl as u64);
     let nr = if thorough { 400_000 } else { 3_000 };
     rep.merge(run_cases(nr, "c04-rand", move |i| c04_case("rand", i, seed), judge_c04));
     rep.add("cases:rand", nr as u64);
